@@ -17,7 +17,8 @@
 (*  - The WIRE is the framed body as a sequence of elements: "D" data (one encoded element),       *)
 (*    and for chunked framing "S" size line, "C" CRLF after the chunk data, "Z" the terminating    *)
 (*    zero-size chunk line, "T" the final CRLF.  Damage: Cut(at) truncates the wire; Corrupt       *)
-(*    turns an "S" into "X" (non-hex) / "M" (negative) / "Y" (empty) or a "D" into "B" (a byte the  *)
+(*    turns an "S" into "X" (non-hex) / "M" (negative) / "Y" (empty) / "P" (the right hex digits    *)
+(*    followed by junk), a "Z" into "Q" (0 followed by junk), or a "D" into "B" (a byte the         *)
 (*    decoder rejects).                                                                             *)
 (*  - Bytes can wait in three places (plus the iterator's line buffer):                            *)
 (*      reader   wire[rpos+1 ..]: not yet parsed by a framing reader; rbuf of them already sit in  *)
@@ -43,6 +44,8 @@
 (*          (fp.read(max_chunk_amt) until b"") is also taken by read() when more than                *)
 (*          max_chunk_amt bytes of Content-Length are outstanding on a LARGE body: a short body is   *)
 (*          then no error for http.client and read() returns the cut body as complete                *)
+(*      SizeLinePrefixAccepted  (never in the code; a seeded mutant class) urllib3's own chunk        *)
+(*          parser takes the leading hex digits of a size line and ignores what follows ("64X")      *)
 (*      F4  DecodeError is raised outside _error_catcher: the connection is not closed (and was     *)
 (*          already handed back to the pool when the body had been received completely)             *)
 (*  - Latitude built into Next (see ReadsOk / GenOk): the six read calls and, on bodies that are    *)
@@ -104,12 +107,15 @@ DamagesOf(c) ==
     LET w == Wire0(c) IN
        (IF "none" \in DamageKinds THEN {[kind |-> "none", at |-> 0]} ELSE {})
     \cup (IF "cut" \in DamageKinds THEN {[kind |-> "cut", at |-> a] : a \in 0..(Len(w) - 1)} ELSE {})
-    \cup {[kind |-> d, at |-> a] : d \in (DamageKinds \cap ChunkDamages), a \in Idx(w, "S")}
+    \cup {[kind |-> d, at |-> a] : d \in (DamageKinds \cap (ChunkDamages \ {"junksize"})), a \in Idx(w, "S")}
+    \cup (IF "junksize" \in DamageKinds THEN {[kind |-> "junksize", at |-> a] : a \in Idx(w, "S") \cup Idx(w, "Z")} ELSE {})
     \cup (IF "corrupt" \in DamageKinds /\ c.decode /\ c.coding # "identity"
           THEN {[kind |-> "corrupt", at |-> a] : a \in Idx(w, "D")} ELSE {})
 Cut(w, at) == SubSeq(w, 1, at)
 Corrupt(w, kind, at) == [w EXCEPT ![at].k = CASE kind = "badsize" -> "X" [] kind = "negsize" -> "M"
-                                                [] kind = "emptysize" -> "Y" [] OTHER -> "B"]
+                                                [] kind = "emptysize" -> "Y"
+                                                [] kind = "junksize" -> (IF w[at].k = "Z" THEN "Q" ELSE "P")
+                                                [] OTHER -> "B"]
 Damaged(c, d) == IF d.kind = "none" THEN Wire0(c)
                  ELSE IF d.kind = "cut" THEN Cut(Wire0(c), d.at)
                  ELSE Corrupt(Wire0(c), d.kind, d.at)
@@ -131,7 +137,7 @@ FactsOf(c, d, w) ==
      zone |-> IF d.kind = "cut" /\ c.framing = "chunked" THEN (IF Idx(w, "Z") = {} THEN "body" ELSE "tail") ELSE "none",
      indep |-> IndepOf(c, w),
      total |-> IF c.decode /\ c.coding # "identity" THEN Cardinality({i \in 1..Len(c.enc) : c.enc[i] = "d"}) ELSE Len(c.enc),
-     checkbytes |-> d.kind # "corrupt"]
+     checkbytes |-> d.kind # "corrupt", line |-> "none"]
 
 InitS(c) ==
     [rpos |-> 0, rbuf |-> 0,                        \* reader: parsed position, elements buffered beyond it
@@ -366,8 +372,9 @@ UpdateChunkLength(st) ==
     IF st.uc # None THEN [s |-> st, err |-> ""]
     ELSE IF Avail(st) = 0 THEN [s |-> st, err |-> "ProtocolError"]              \* "Response ended prematurely"
     ELSE LET e == wire[st.rpos + 1] IN
-         CASE e.k = "S" -> [s |-> [Adv(st, 1) EXCEPT !.uc = e.e], err |-> ""]
-           [] e.k = "Z" -> [s |-> [Adv(st, 1) EXCEPT !.uc = 0], err |-> ""]
+         \* "P" / "Q": hex digits followed by junk -- int(line, 16) rejects the whole line
+         CASE e.k = "S" \/ (e.k = "P" /\ Has("SizeLinePrefixAccepted")) -> [s |-> [Adv(st, 1) EXCEPT !.uc = e.e], err |-> ""]
+           [] e.k = "Z" \/ (e.k = "Q" /\ Has("SizeLinePrefixAccepted")) -> [s |-> [Adv(st, 1) EXCEPT !.uc = 0], err |-> ""]
            [] e.k = "M" -> [s |-> [Adv(st, 1) EXCEPT !.uc = Neg], err |-> ""]
            [] OTHER     -> [s |-> Adv(st, 1), err |-> "InvalidChunkLength"]
 HandleChunk(st, amt) ==
